@@ -1,5 +1,5 @@
 import Poulpy.Driver.Util
-import Poulpy.Model.ScratchOps
+import Poulpy.Model.ScratchOps2
 /-
 Driver for C12.  Request:  `id scratch <op> be=fft64|ntt120 n=.. k=v … mis=<0..63> [win=<bytes>]`
 Answer:   `id tb=<tmp_bytes> req=<req> reqa=<reqA> al=<0|1> fits=<0|1> run=<ok|take|need> peak=<p> ev=<o:l:r,…>`
@@ -15,6 +15,71 @@ namespace Drv.Scratch
 open _root_.Scratch
 
 def beOf (ts : List String) : BE := if kv ts "be" == some "ntt120" then .ntt120 else .fft64
+
+
+/-- second table (Model/ScratchOps2.lean) -/
+def opOf2 (op : String) (ts : List String) : Option (Nat × AllocTree) :=
+  let be := beOf ts
+  let g := kvNat ts
+  let n := g "n"
+  let res : G := ⟨g "rank", g "size", g "b2k"⟩
+  let a : G := ⟨g "arank", g "asize", g "ab2k"⟩
+  let k : K := ⟨g "krin", g "krout", g "ksize", g "kb2k", g "dnum", g "dsize"⟩
+  let t : K := ⟨g "rank", g "rank", g "tsize", g "tb2k", g "tdnum", g "tdsize"⟩
+  -- tensor key: rank_in = pairs(rank), rank_out = rank
+  let t2 : K := ⟨pairs (g "rank"), g "rank", g "tsize", g "tb2k", g "tdnum", g "tdsize"⟩
+  let lwe : L := ⟨g "lsize", g "lb2k"⟩
+  let alwe : L := ⟨g "alsize", g "alb2k"⟩
+  let same : Bool := res.b2k == a.b2k && res.size == a.size && res.rank == a.rank
+  -- a GGSW seen as a GLWE key infos for the external product: rank_in = rank_out = krout
+  match op with
+  | "glwe_secret_tensor_prepare" => some (tbSecretTensorPrepare be n res.rank, treeSecretTensorPrepare be n res.rank)
+  | "glwe_switching_key_encrypt_sk" => some (tbSwitchingKeyEncryptSk be n k, treeSwitchingKeyEncryptSk be n k)
+  | "glwe_automorphism_key_encrypt_sk" => some (tbAutomorphismKeyEncryptSk be n k, treeAutomorphismKeyEncryptSk be n k)
+  | "glwe_tensor_key_encrypt_sk" => some (tbTensorKeyEncryptSk be n k, treeTensorKeyEncryptSk be n k)
+  | "gglwe_to_ggsw_key_encrypt_sk" => some (tbGglweToGgswKeyEncryptSk be n k, treeGglweToGgswKeyEncryptSk be n k)
+  | "lwe_switching_key_encrypt_sk" => some (tbLweSwitchingKeyEncryptSk be n k, treeLweSwitchingKeyEncryptSk be n k)
+  | "lwe_to_glwe_key_encrypt_sk" => some (tbLweToGlweKeyEncryptSk be n k, treeLweToGlweKeyEncryptSk be n k)
+  | "glwe_to_lwe_key_encrypt_sk" => some (tbGlweToLweKeyEncryptSk be n k, treeGlweToLweKeyEncryptSk be n k)
+  | "glwe_compressed_encrypt_sk" => some (tbGlweEncryptSk be n res.size, treeGlweEncryptSk be n res)
+  | "gglwe_compressed_encrypt_sk" => some (tbGgxEncryptSk be n k.size, treeGglweCompressedEncryptSk be n k)
+  | "ggsw_compressed_encrypt_sk" => some (tbGgxEncryptSk be n k.size, treeGgswEncryptSk be n k)
+  | "glwe_from_lwe" => some (tbGlweFromLwe be n res lwe k, treeGlweFromLwe be n res lwe k)
+  | "lwe_from_glwe" => some (tbLweFromGlwe be n lwe a k, treeLweFromGlwe be n lwe a k (g "idx"))
+  | "lwe_keyswitch" => some (tbLweKeyswitch be n lwe alwe k, treeLweKeyswitch be n lwe alwe k)
+  | "gglwe_keyswitch" => some (tbGlweKeyswitch be n res a k, treeRows (tbGlweKeyswitch be n res a k) (g "rdnum" * g "grin") (treeGlweKeyswitch be n res a k))
+  | "gglwe_keyswitch_assign" => some (tbGlweKeyswitch be n res res k, treeRows (tbGlweKeyswitch be n res res k) (g "rdnum" * g "grin") (treeGlweKeyswitch be n res res k))
+  | "gglwe_external_product" => some (tbGlweExternalProduct be n res a k, treeRows (tbGlweExternalProduct be n res a k) (g "rdnum" * g "grin") (treeGlweExternalProduct be n res a k))
+  | "gglwe_external_product_assign" => some (tbGlweExternalProduct be n res res k, treeRows (tbGlweExternalProduct be n res res k) (g "rdnum" * g "grin") (treeGlweExternalProduct be n res res k))
+  | "ggsw_external_product" => some (tbGlweExternalProduct be n res a k, treeRows (tbGlweExternalProduct be n res a k) (min (g "rdnum") (g "adnum")) (treeGlweExternalProduct be n res a k))
+  | "ggsw_external_product_assign" => some (tbGlweExternalProduct be n res res k, treeRows (tbGlweExternalProduct be n res res k) (g "rdnum") (treeGlweExternalProduct be n res res k))
+  | "ggsw_from_gglwe" => some (tbGgswExpandRows be n res t, .need (tbGgswExpandRows be n res t) (treeGgswExpandRows be n (g "rdnum") res t))
+  | "ggsw_expand_row" => some (tbGgswExpandRows be n res t, treeGgswExpandRows be n (g "rdnum") res t)
+  | "ggsw_keyswitch" => some (tbGgswKeyswitch be n res a k t, treeGgswKeyswitch be n (g "adnum") res a k t |> fun tr => tr)
+  | "ggsw_keyswitch_assign" => some (tbGgswKeyswitch be n res res k t, treeGgswKeyswitch be n (g "rdnum") res res k t)
+  | "ggsw_automorphism" => some (tbGgswAutomorphism be n res a k t, treeGgswAutomorphism be n (g "rdnum") res a k t)
+  | "ggsw_automorphism_assign" => some (tbGgswAutomorphism be n res res k t, treeGgswAutomorphism be n (g "rdnum") res res k t)
+  | "atk_automorphism" => some (tbAtkAutomorphism be n res a k same, treeAtkAutomorphism be n (g "rdnum" * g "krin") res a k same)
+  | "atk_automorphism_assign" => some (tbAtkAutomorphism be n res res k true, treeAtkAutomorphismAssign be n (g "rdnum" * g "krin") res k)
+  | "ggsw_rotate_assign" => some (tbGlweRotate n, treeRows (tbGlweRotate n) (g "rdnum") (treeGlweRotateAssign n))
+  | "glwe_noise" => some (tbGlweNoise be n res.size, treeGlweNoise be n res)
+  | "gglwe_noise" => some (tbGglweNoise be n res.size, treeGglweNoise be n res)
+  | "ggsw_noise" => some (tbGgswNoise be n res.size, treeGgswNoise be n res (g "col"))
+  | "glwe_tensor_decrypt" => some (tbGlweTensorDecrypt be n res, treeGlweTensorDecrypt be n res)
+  | "glwe_pack" => some (tbGlwePack be n res k, treeGlwePack be n (g "rounds") (g "gap") res res k)
+  | "glwe_packer_add" => some (tbGlwePacker be n res k, treeGlwePackerAdd be n res k)
+  | "glwe_tensor_relinearize" => some (tbGlweTensorRelinearize be n a t2, treeGlweTensorRelinearize be n (g "tskuse") a t2)
+  | "cswap" => some (tbCswap be n res a k, treeCswap be n res a k)
+  | "ckks_rotate" => some (tbCkksRotate be n res k, treeCkksRotate be n res k)
+  | "ckks_pt_vec_znx" => some (tbCkksPtVecZnx n, treeCkksPtVecZnx n)
+  | "ckks_pt_vec_rnx" => some (tbCkksPtVecRnx n (ceilDiv (g "ptk") res.b2k), .take (vecBytes n 1 (ceilDiv (g "ptk") res.b2k)) (treeCkksPtVecZnx n))
+  | "ckks_extract_pt" => some (tbCkksExtractPt n, altList [treeRsh n, treeLsh n])
+  | "ckks_encrypt_sk" => some (tbCkksEncryptSk be n res.size, treeCkksEncryptSk be n res)
+  | "ckks_decrypt" => some (tbCkksDecrypt be n res.size, treeCkksDecrypt be n res)
+  | "ckks_mul_pt_const" => some (tbCkksMulPtConst be n res a (ceilDiv (g "ptk") res.b2k), .done)
+  | "glwe_mul_const" => some (tbGlweMulConst be n res a (g "bsize"), treeGlweMulConst be n (g "off") res a (g "bsize"))
+  | "glwe_mul_const_assign" => some (tbGlweMulConst be n res res (g "bsize"), treeGlweMulConstAssign be n res (g "bsize"))
+  | _ => none
 
 /-- (tmp_bytes, tree) of a named operation -/
 def opOf (op : String) (ts : List String) : Option (Nat × AllocTree) :=
@@ -87,7 +152,7 @@ def opOf (op : String) (ts : List String) : Option (Nat × AllocTree) :=
   | "execute_bdd" => some (g "threads" * tbExecBdd be n (g "state") res k, treeExecBdd be n (g "threads") (g "state") res k)
   | "ckks_shift_norm" => some (tbCkksShiftNorm n, treeCkksShiftNorm n)
   | "ckks_shift" => some (tbCkksShift n, treeCkksShift n)
-  | _ => none
+  | _ => opOf2 op ts
 
 def showEvs (base : Nat) (evs : List Ev) : String :=
   if evs.isEmpty then "-"
